@@ -606,12 +606,6 @@ func c06SpecMatchPrefix(globs, target string) bool {
 	return false
 }
 
-const c06SigUnstable = "gopkg.in/X.v-unstable (no major number) is accepted as a module path and splits to the suffix .v-unstable"
-
-func c06IsUnstableNoNumber(p string) bool {
-	return strings.HasPrefix(p, "gopkg.in/") && strings.HasSuffix(p, ".v-unstable")
-}
-
 func c06Oracle(g *Gen, n int) {
 	r := g.Rand
 	for i := 0; i < n; i++ {
@@ -627,11 +621,7 @@ func c06Oracle(g *Gen, n int) {
 		}
 		// exactly when the documented rules hold
 		if mod != c06SpecModPath(p) {
-			what := "CheckPath disagrees with the documented module path rules"
-			if c06IsUnstableNoNumber(p) && mod {
-				what = c06SigUnstable
-			}
-			g.Fail(what, strconv.Quote(p), "module.checkpath "+hx(p))
+			g.Fail("CheckPath disagrees with the documented module path rules", strconv.Quote(p), "module.checkpath "+hx(p))
 		}
 		if imp != c06SpecPath(c06Imp, p) {
 			g.Fail("CheckImportPath disagrees with the documented import path rules", strconv.Quote(p), "module.checkimportpath "+hx(p))
@@ -644,11 +634,7 @@ func c06Oracle(g *Gen, n int) {
 		if mod {
 			shape := maj == "" || c06SlashMajorRE.MatchString(maj) || strings.HasPrefix(p, "gopkg.in/") && c06DotMajorRE.MatchString(maj)
 			if !ok || pre+maj != p || !shape {
-				what := "SplitPathVersion of a valid module path: prefix+suffix != path or suffix not empty, /vN (N>=2), .vN[-unstable]"
-				if c06IsUnstableNoNumber(p) && ok && pre+maj == p {
-					what = c06SigUnstable
-				}
-				g.Fail(what, strconv.Quote(p)+" -> "+strconv.Quote(pre)+" "+strconv.Quote(maj), "module.splitpathversion "+hx(p))
+				g.Fail("SplitPathVersion of a valid module path: prefix+suffix != path or suffix not empty, /vN (N>=2), .vN[-unstable]", strconv.Quote(p)+" -> "+strconv.Quote(pre)+" "+strconv.Quote(maj), "module.splitpathversion "+hx(p))
 			}
 		}
 		if !ok && (pre != p || maj != "") {
